@@ -1,5 +1,249 @@
-(* Eval15.v — evaluation of C15 observations (stub: replaced when C15 is built). *)
-From Verif Require Import Base Sexp.
+(* Eval15.v — evaluation of C15 observations: real vs model (Plumb/Model.v), real vs specification.
+
+   Observation lines (harness/internal/c15):
+     (wf   PLUGIN SIG REAL)         REAL = 1 if the derived function type-checks, else 0
+     (call PLUGIN SIG ARGS REAL)    REAL = (ret (EVENT ...) (RESULT ...)), EVENT = (LEVEL (ARG ...)),
+                                    or the symbol panic (never equal to a prediction)
+   PLUGIN = curry | flip | apply | uncurry | rt (Uncurry of Curry) | tuple
+   SIG    = (sig (PARAM ...) (RESULT ...) VARIADIC)          PARAM/RESULT = (NAME TYPE) | (TYPE)
+          | (csig (PARAM ...) (PARAM ...) (RESULT ...) VARIADIC)    uncurry: outer, inner
+          | (tuple N)
+   ARGS   = argument ids, in the order in which the caller of the derived function supplies them
+            (apply: the arguments of the returned function followed by the pre-bound value). *)
+From Coq Require Import String List ZArith Bool Arith.
+From Verif Require Import Base Sexp Plumb.Model.
+Import ListNotations.
 Open Scope string_scope.
 
-Definition eval15 (e : sexp) : verdict := bad_line.
+(* the instrumented original function of the harness: its j-th result carries the id
+   1000*(j+1) + sum over all arguments (flattened over levels) of (position+1)*id *)
+Definition val_id (v : val) : Z := match v with VBase z => z | _ => (-1)%Z end.
+
+Fixpoint weighted (i : Z) (l : list val) : Z :=
+  match l with
+  | [] => 0%Z
+  | v :: r => (i * val_id v + weighted (i + 1) r)%Z
+  end.
+
+Definition res15 (j : nat) (acc : list (list val)) : val :=
+  VBase (1000 * (Z.of_nat j + 1) + weighted 1 (concat acc))%Z.
+
+(* ---------- parsing ---------- *)
+Definition get_sym (e : sexp) : option string := match e with Sym s => Some s | _ => None end.
+
+Definition param_of (e : sexp) : option (name * ty) :=
+  match e with
+  | L [Sym n; Sym t] => Some (n, TBase t)
+  | L [Sym t] => Some ("", TBase t)
+  | _ => None
+  end.
+
+Definition params_of (e : sexp) : option (list (name * ty)) :=
+  match e with L l => map_opt param_of l | _ => None end.
+
+Definition bool_of (e : sexp) : option bool :=
+  match e with Num 0%Z => Some false | Num 1%Z => Some true | _ => None end.
+
+Inductive shape : Type :=
+| ShSig (s : sig)
+| ShCsig (c : csig)
+| ShTuple (n : nat).
+
+Definition shape_of (e : sexp) : option shape :=
+  match e with
+  | L [Sym k; ps; rs; v] =>
+      if String.eqb k "sig" then
+        match params_of ps, params_of rs, bool_of v with
+        | Some p, Some r, Some b => Some (ShSig (mkSig p r b))
+        | _, _, _ => None
+        end
+      else None
+  | L [Sym k; po; pi; rs; v] =>
+      if String.eqb k "csig" then
+        match params_of po, params_of pi, params_of rs, bool_of v with
+        | Some o, Some i, Some r, Some b => Some (ShCsig (mkCsig o "" i r b))
+        | _, _, _, _ => None
+        end
+      else None
+  | L [Sym k; Num n] => if String.eqb k "tuple" then Some (ShTuple (Z.to_nat n)) else None
+  | _ => None
+  end.
+
+Definition args_of (e : sexp) : option (list val) := option_map (map VBase) (get_zs e).
+
+(* ---------- printing ---------- *)
+Definition val_sexp (v : val) : sexp := match v with VBase z => Num z | _ => Sym "fn" end.
+Definition event_sexp (ev : event) : sexp := L [of_nat (fst ev); L (map val_sexp (snd ev))].
+Definition ret_sexp (out : list val) (log : list event) : sexp :=
+  L [Sym "ret"; L (map event_sexp log); L (map val_sexp out)].
+Definition run_sexp (r : run_result) : sexp :=
+  match r with
+  | ROk out log => ret_sexp out log
+  | RIll => Sym "ill"
+  | RGenErr => Sym "generr"
+  | RFuel => Sym "fuel"
+  end.
+
+(* ---------- the model's answer and the specification's answer ---------- *)
+Definition swap2 {A} (l : list A) : list A :=
+  match l with a :: b :: r => b :: a :: r | _ => l end.
+
+Definition model_run (plugin : string) (sh : shape) (args : list val) : option run_result :=
+  match sh with
+  | ShSig s =>
+      if String.eqb plugin "curry" then Some (run_curry res15 fixed FUEL s (prim_flat s) args)
+      else if String.eqb plugin "flip" then Some (run_flip res15 fixed FUEL s (prim_flat s) args)
+      else if String.eqb plugin "apply" then Some (run_apply res15 fixed FUEL s (prim_flat s) args)
+      else if String.eqb plugin "rt" then Some (run_roundtrip res15 fixed FUEL s (prim_flat s) args)
+      else None
+  | ShCsig c =>
+      if String.eqb plugin "uncurry" then Some (run_uncurry res15 fixed FUEL c (prim_curried c) args)
+      else None
+  | ShTuple n =>
+      if String.eqb plugin "tuple" then
+        if Nat.eqb n (List.length args) then Some (run_tuple res15 FUEL args) else None
+      else None
+  end.
+
+(* the property, stated directly: one call of the original function with the arguments in
+   position, its results returned unchanged *)
+Definition spec_run (plugin : string) (sh : shape) (args : list val) : option sexp :=
+  match sh with
+  | ShSig s =>
+      let n := List.length (s_results s) in
+      let one (a : list val) := ret_sexp (prim_results res15 n [a]) [(0, a)] in
+      if String.eqb plugin "flip" then Some (one (swap2 args))
+      else if String.eqb plugin "curry" || String.eqb plugin "apply" || String.eqb plugin "rt"
+      then Some (one args)
+      else None
+  | ShCsig c =>
+      let k := List.length (c_outer c) in
+      let a := firstn k args in
+      let b := skipn k args in
+      Some (ret_sexp (prim_results res15 (List.length (c_results c)) [a; b]) [(0, a); (1, b)])
+  | ShTuple _ => Some (ret_sexp args [])
+  end.
+
+(* names as the generator sees them after its own renaming *)
+Definition renamed_names (plugin : string) (sh : shape) : list name * list name :=
+  match sh with
+  | ShSig s => (names (rename_blank fixed "param_" (s_params s)), names (s_results s))
+  | ShCsig c => ((names (rename_blank fixed "param_" (c_outer c)) ++
+                  names (rename_blank fixed "innerParam_" (c_inner c)))%list, names (c_results c))
+  | ShTuple _ => ([], [])
+  end.
+
+Definition variadic_of (sh : shape) : bool :=
+  match sh with ShSig s => s_variadic s | ShCsig c => c_variadic c | ShTuple _ => false end.
+
+Definition arity_ok (plugin : string) (sh : shape) : bool :=
+  match sh with
+  | ShSig s => Nat.leb (if String.eqb plugin "apply" then 1 else 2)%nat (List.length (s_params s))
+  | ShCsig c => Nat.eqb (List.length (c_outer c)) 1
+  | ShTuple n => Nat.leb 1 n
+  end.
+
+(* inside the guard of plumb_correct_* / tuple_spec / uncurry_curry_id *)
+Definition in_guard (plugin : string) (sh : shape) : bool :=
+  match sh with
+  | ShTuple n => Nat.leb 1 n
+  | _ => let '(ps, rs) := renamed_names plugin sh in
+         guardb ps rs && negb (variadic_of sh) && arity_ok plugin sh
+  end.
+
+(* the classes of shapes on which the generated code is known not to compile *)
+Definition ill_class (plugin : string) (sh : shape) : string :=
+  let '(ps, rs) := renamed_names plugin sh in
+  if variadic_of sh then "variadic"
+  else if memb "f" (ps ++ rs)%list then "known:c15-name-f"
+  else match sh with
+       | ShCsig c =>
+           if existsb (fun n => memb n (names (rename_blank fixed "innerParam_" (c_inner c))))
+                      (filter bindable (names (rename_blank fixed "param_" (c_outer c))))
+           then "known:c15-uncurry-dup" else "ill-other"
+       | _ => "ill-other"
+       end.
+
+(* ---------- tags: plugin / naming class / arity / results ---------- *)
+Definition src_names (sh : shape) : list name :=
+  match sh with
+  | ShSig s => names (s_params s)
+  | ShCsig c => (names (c_outer c) ++ names (c_inner c))%list
+  | ShTuple _ => []
+  end.
+
+Definition naming_class (sh : shape) : string :=
+  let ns := src_names sh in
+  (if existsb (fun n => String.eqb n "") ns then "unnamed" else "named") ++
+  (if existsb (fun n => String.eqb n "_") ns then "+blank" else "") ++
+  (if existsb (fun n => prefix "param_" n || prefix "innerParam_" n) ns then "+prefix" else "") ++
+  (if existsb (fun n => String.eqb n "f") ns then "+f" else "").
+
+Definition nparams (sh : shape) : nat :=
+  match sh with ShSig s => List.length (s_params s)
+              | ShCsig c => (List.length (c_outer c) + List.length (c_inner c))%nat
+              | ShTuple n => n end.
+Definition nresults (sh : shape) : nat :=
+  match sh with ShSig s => List.length (s_results s)
+              | ShCsig c => List.length (c_results c)
+              | ShTuple n => n end.
+
+Definition tag_of (plugin : string) (sh : shape) : string :=
+  plugin ++ "/" ++ naming_class sh ++ "/n" ++ itoa (nparams sh) ++ "/r" ++ itoa (nresults sh).
+
+Definition is_ok (r : run_result) : bool := match r with ROk _ _ => true | _ => false end.
+Definition is_known (cls : string) : bool := prefix "known:" cls.
+
+Definition verdict_of (tag : string) (model_ok spec_ok guard : bool) (m : sexp) : verdict :=
+  {| v_known := true; v_model_ok := model_ok; v_spec_ok := spec_ok; v_guard := guard;
+     v_model := m; v_tag := tag |}.
+
+Definition eval15 (e : sexp) : verdict :=
+  match e with
+  | L [Sym k; Sym plugin; shs; Num real] =>
+      if String.eqb k "wf" then
+        match shape_of shs with
+        | None => bad_line
+        | Some sh =>
+            let dummy := map (fun i => VBase (Z.of_nat (S i))) (seq 0 (nparams sh)) in
+            match model_run plugin sh dummy with
+            | None => bad_line
+            | Some m =>
+                let real_ok := Z.eqb real 1 in
+                let tag := tag_of plugin sh in
+                if is_ok m then
+                  verdict_of tag real_ok real_ok (in_guard plugin sh) (Sym "wellformed")
+                else
+                  let cls := ill_class plugin sh in
+                  if is_known cls then
+                    if real_ok
+                    then verdict_of ("not-reproduced:" ++ cls ++ "/" ++ plugin) true true false (Sym "ill-or-repaired")
+                    else verdict_of (cls ++ "/" ++ plugin) true false false (run_sexp m)
+                  else
+                    (* outside the property: variadic (the model has no types, and `b ...interface{}`
+                       happens to compile: no prediction) or a shape the harness does not build *)
+                    verdict_of (cls ++ "/" ++ tag) (variadic_of sh || negb real_ok) true false (run_sexp m)
+            end
+        end
+      else bad_line
+  | L [Sym k; Sym plugin; shs; argse; real] =>
+      if String.eqb k "call" then
+        match shape_of shs, args_of argse with
+        | Some sh, Some args =>
+            match model_run plugin sh args, spec_run plugin sh args with
+            | Some m, Some sp =>
+                let tag := "call/" ++ tag_of plugin sh in
+                if is_ok m then
+                  verdict_of tag (sexp_eqb (run_sexp m) real) (sexp_eqb sp real) (in_guard plugin sh) (run_sexp m)
+                else if is_known (ill_class plugin sh) then
+                  (* the known defect was repaired: the code must now meet the specification *)
+                  verdict_of ("not-reproduced:" ++ ill_class plugin sh ++ "/" ++ tag) (sexp_eqb sp real) (sexp_eqb sp real) true sp
+                else
+                  verdict_of tag false (sexp_eqb sp real) false (run_sexp m)
+            | _, _ => bad_line
+            end
+        | _, _ => bad_line
+        end
+      else bad_line
+  | _ => bad_line
+  end.
